@@ -25,6 +25,7 @@ type function struct {
 	instrs []instr
 	labels map[string]int
 	argc   int // number of 8-byte argument slots (from $frame-args)
+	frame  int // bytes of local frame (from $frame-args): the outgoing argument slots
 }
 
 type asmFile struct {
@@ -47,6 +48,16 @@ var (
 	argRe   = regexp.MustCompile(`^([A-Za-z_][A-Za-z0-9_]*)\+(\d+)\(FP\)$`)
 	symRe   = regexp.MustCompile(`^([A-Za-z_][A-Za-z0-9_]*)<>(\+(\d+))?\(SB\)$`)
 )
+
+// noOctal rejects decimal-looking numbers that the Go assembler reads as octal
+// (a leading 0 followed by more digits): asmgen parses offsets and sizes in base 10.
+func noOctal(st stmt, nums ...string) {
+	for _, n := range nums {
+		if len(n) > 1 && n[0] == '0' {
+			fatalf("%s: number %q has a leading zero (octal for the Go assembler) in %q", st.where(), n, st.text)
+		}
+	}
+}
 
 func parseUint(s string, st stmt) uint64 {
 	v, err := strconv.ParseUint(s, 0, 64)
@@ -71,6 +82,7 @@ func parseFile(path, src string) *asmFile {
 				fatalf("%s: only 8-byte DATA is supported: %q", st.where(), t)
 			}
 			off := int64(0)
+			noOctal(st, m[3], m[4])
 			if m[3] != "" {
 				off, _ = strconv.ParseInt(m[3], 10, 64)
 			}
@@ -92,14 +104,17 @@ func parseFile(path, src string) *asmFile {
 			if !strings.Contains(m[2], "RODATA") {
 				fatalf("%s: constant %s is not RODATA", st.where(), m[1])
 			}
+			noOctal(st, m[3])
 			f.sizes[m[1]], _ = strconv.ParseInt(m[3], 10, 64)
 		case strings.HasPrefix(t, "TEXT"):
 			m := textRe.FindStringSubmatch(t)
 			if m == nil {
 				fatalf("%s: cannot parse %q", st.where(), t)
 			}
+			noOctal(st, m[2], m[3])
 			argBytes, _ := strconv.Atoi(m[3])
-			cur = &function{name: m[1], labels: map[string]int{}, argc: argBytes / 8}
+			frameBytes, _ := strconv.Atoi(m[2])
+			cur = &function{name: m[1], labels: map[string]int{}, argc: argBytes / 8, frame: frameBytes}
 			f.funcs = append(f.funcs, cur)
 		default:
 			if cur == nil {
@@ -152,6 +167,7 @@ func (f *asmFile) parseOperand(fn *function, s string, st stmt) (op operand, kin
 		return operand{coq: fmt.Sprintf("OImm %d", v)}, "imm"
 	case argRe.MatchString(s):
 		m := argRe.FindStringSubmatch(s)
+		noOctal(st, m[2])
 		off, _ := strconv.Atoi(m[2])
 		if off%8 != 0 || off/8 >= fn.argc {
 			fatalf("%s: argument slot out of range: %q", st.where(), s)
@@ -161,6 +177,7 @@ func (f *asmFile) parseOperand(fn *function, s string, st stmt) (op operand, kin
 	case symRe.MatchString(s):
 		m := symRe.FindStringSubmatch(s)
 		off := int64(0)
+		noOctal(st, m[3])
 		if m[3] != "" {
 			off, _ = strconv.ParseInt(m[3], 10, 64)
 		}
@@ -172,10 +189,14 @@ func (f *asmFile) parseOperand(fn *function, s string, st stmt) (op operand, kin
 	case memRe.MatchString(s):
 		m := memRe.FindStringSubmatch(s)
 		off := 0
+		noOctal(st, m[1])
 		if m[1] != "" {
 			off, _ = strconv.Atoi(m[1])
 		}
 		if m[2] == "SP" {
+			if off%8 != 0 || off+8 > fn.frame {
+				fatalf("%s: %q is outside the %d-byte frame declared by TEXT ·%s", st.where(), s, fn.frame, fn.name)
+			}
 			return operand{coq: fmt.Sprintf("OStk %d", off)}, "stk"
 		}
 		if !regNames[m[2]] {
